@@ -11,6 +11,8 @@ PID = "C05"
 class Posters:
     name = "c05-posters"
     horizon = 2000
+    lock_points = False     # locks of the signal registry / singletons: a preemption before an uncontended
+    #                         acquire is equivalent to one at the thread's previous scheduling point
     fair_k = 60
 
     def __init__(self, mode="line", codes="core"):
